@@ -252,10 +252,24 @@ func runC20(r *common.Rand, tier string, o *common.Out, replay string) {
 		o.ImplOnly("replay", replay, true)
 		return
 	}
+	if strings.HasPrefix(replay, "zipown|") {
+		p := strings.Split(replay, "|")
+		var lv, sz int
+		fmt.Sscan(p[1], &lv)
+		fmt.Sscan(p[2], &sz)
+		kind := "gzip"
+		if len(p) > 3 {
+			kind = p[3]
+		}
+		zipOwnCaseOf(o, "replay", kind, lv, sz, "returned-bytes-modified")
+		return
+	}
 	if replay != "" {
 		runSrv("C20", r, tier, o, replay)
 		return
 	}
+	// compressed payloads belong to whoever asked for them, until released
+	zipOwnProbeOf(o, "returned-bytes-modified")
 	// (1) size classes: exhaustive over every size 0..max+2 for 40 configurations
 	cfgs := [][2]int{{512, 4096}, {1, 1}, {1, 2}, {1, 1024}, {2, 3}, {3, 3}, {3, 100}, {7, 1000}, {16, 16}, {16, 17}, {500, 3000}, {512, 512},
 		{512, 513}, {512, 1023}, {512, 1024}, {512, 1025}, {100, 6400}, {100, 6399}, {100, 6401}, {1000, 1001}, {5, 5000}, {6, 96}, {6, 97},
